@@ -214,6 +214,87 @@ impl Flt {
         true
     }
 }
+/// what the `-o` path holds before the run (the environment of the output side)
+#[derive(Clone, Debug, PartialEq)]
+enum Pre {
+    Absent,
+    Empty,
+    /// arbitrary bytes: (length, seed)
+    Junk(u32, u64),
+    /// a valid DLT file of these messages of the scenario (any messages, any order), optionally followed by the
+    /// first bytes of one more frame
+    Dlt(Vec<u32>, bool),
+    /// the output of a previous `adlt convert` run with these options on the same file arguments and the same path
+    Prev(Box<Opts>),
+}
+impl Pre {
+    fn json(&self) -> Value {
+        match self {
+            Pre::Absent => json!({"k": "absent"}),
+            Pre::Empty => json!({"k": "empty"}),
+            Pre::Junk(n, s) => json!({"k": "junk", "len": n, "seed": s}),
+            Pre::Dlt(u, p) => json!({"k": "dlt", "uids": u, "partial": p}),
+            Pre::Prev(o) => json!({"k": "prev", "opts": o.json()}),
+        }
+    }
+    fn from_json(v: &Value) -> Pre {
+        match v["k"].as_str().unwrap_or("absent") {
+            "empty" => Pre::Empty,
+            "junk" => Pre::Junk(v["len"].as_u64().unwrap() as u32, v["seed"].as_u64().unwrap()),
+            "dlt" => Pre::Dlt(serde_json::from_value(v["uids"].clone()).unwrap(), v["partial"].as_bool().unwrap()),
+            "prev" => Pre::Prev(Box::new(Opts::from_json(&v["opts"]))),
+            _ => Pre::Absent,
+        }
+    }
+    fn tag(&self) -> &'static str {
+        match self {
+            Pre::Absent => "out_path_absent",
+            Pre::Empty => "out_path_empty",
+            Pre::Junk(..) => "out_path_junk",
+            Pre::Dlt(..) => "out_path_other_dlt",
+            Pre::Prev(..) => "out_path_previous_run",
+        }
+    }
+}
+/// materialised prior content
+#[derive(Clone, Debug)]
+enum PreMat {
+    Absent,
+    Bytes(Vec<u8>),
+    Prev(Box<Opts>, Box<PreMat>),
+}
+fn materialize(scn: &Scn, o: &Opts) -> PreMat {
+    if !o.ofile {
+        return PreMat::Absent;
+    }
+    match &o.pre {
+        Pre::Absent => PreMat::Absent,
+        Pre::Empty => PreMat::Bytes(vec![]),
+        Pre::Junk(n, seed) => {
+            let mut r = Rng::new(*seed);
+            PreMat::Bytes((0..*n).map(|_| r.next() as u8).collect())
+        }
+        Pre::Dlt(uids, partial) => {
+            let mut out = vec![];
+            for u in uids {
+                scn.msgs[*u as usize % scn.msgs.len().max(1)].build(*u % scn.msgs.len().max(1) as u32).to_write(&mut out).unwrap();
+            }
+            if *partial && !scn.msgs.is_empty() {
+                let mut one = vec![];
+                scn.msgs[0].build(0).to_write(&mut one).unwrap();
+                out.extend_from_slice(&one[..one.len().min(21)]);
+            }
+            PreMat::Bytes(out)
+        }
+        Pre::Prev(p) => {
+            let mut p2 = (**p).clone();
+            p2.ofile = true;
+            let inner = materialize(scn, &p2);
+            PreMat::Prev(Box::new(p2), Box::new(inner))
+        }
+    }
+}
+
 #[derive(Clone, Debug, PartialEq)]
 struct Opts {
     b: Option<u32>,
@@ -226,16 +307,17 @@ struct Opts {
     sort: bool,
     style: u8, // 0 none, 1 -a, 2 -x, 3 -s
     ofile: bool,
+    pre: Pre, // prior content of the -o path (only meaningful with ofile)
 }
 impl Opts {
     fn none(style: u8) -> Opts {
-        Opts { b: None, e: None, lcs: vec![], ffmt: 0, ffilters: vec![], eac: vec![], eac_style: 0, sort: false, style, ofile: false }
+        Opts { b: None, e: None, lcs: vec![], ffmt: 0, ffilters: vec![], eac: vec![], eac_style: 0, sort: false, style, ofile: false, pre: Pre::Absent }
     }
     fn json(&self) -> Value {
         json!({"b": self.b, "e": self.e, "lcs": self.lcs, "ffmt": self.ffmt,
                "ffilters": self.ffilters.iter().map(|f| f.json()).collect::<Vec<_>>(),
                "eac": self.eac.iter().map(|f| f.json()).collect::<Vec<_>>(), "eac_style": self.eac_style,
-               "sort": self.sort, "style": self.style, "ofile": self.ofile})
+               "sort": self.sort, "style": self.style, "ofile": self.ofile, "pre": self.pre.json()})
     }
     fn from_json(v: &Value) -> Opts {
         Opts {
@@ -249,6 +331,7 @@ impl Opts {
             sort: v["sort"].as_bool().unwrap(),
             style: v["style"].as_u64().unwrap() as u8,
             ofile: v["ofile"].as_bool().unwrap(),
+            pre: Pre::from_json(&v["pre"]),
         }
     }
     /// the filter vector convert builds: file filters, then the --eac filters
@@ -343,13 +426,16 @@ struct RunOut {
     lines: Vec<String>,
     stderr: String,
     ofile: Option<Vec<DltMessage>>,
+    obytes: Option<Vec<u8>>,        // final content of the -o path
+    prior: Option<Vec<DltMessage>>, // what the -o path re-read to just before the run (None: absent)
+    prior_len: Option<usize>,
 }
 
 type ArgSpec = (usize, bool); // (file number, alternative spelling of the path)
 
-fn run_adlt(scn_dir: &Path, inv_dir: &Path, args: &[ArgSpec], o: &Opts) -> RunOut {
+/// one `adlt convert` process; returns (exit ok, timed out, stdout lines, stderr)
+fn exec_adlt(scn_dir: &Path, inv_dir: &Path, args: &[ArgSpec], o: &Opts, opath: &Path, tag: &str) -> (bool, bool, Vec<String>, String) {
     let bin = std::env::var("VERIF_ADLT_BIN").expect("VERIF_ADLT_BIN");
-    std::fs::create_dir_all(inv_dir).unwrap();
     let mut cmd = Command::new(bin);
     cmd.arg("convert");
     for (k, alt) in args {
@@ -378,7 +464,7 @@ fn run_adlt(scn_dir: &Path, inv_dir: &Path, args: &[ArgSpec], o: &Opts) -> RunOu
         cmd.arg(format!("--lcs={}", o.lcs.iter().map(|x| x.to_string()).collect::<Vec<_>>().join(",")));
     }
     if o.ffmt != 0 {
-        let fp = inv_dir.join(if o.ffmt == 1 { "filter.dlf" } else { "filter.txt" });
+        let fp = inv_dir.join(format!("filter{}.{}", tag, if o.ffmt == 1 { "dlf" } else { "txt" }));
         if o.ffmt == 1 {
             std::fs::write(&fp, dlf_text(&o.ffilters, o.eac_style % 2 == 0)).unwrap();
         } else {
@@ -392,12 +478,11 @@ fn run_adlt(scn_dir: &Path, inv_dir: &Path, args: &[ArgSpec], o: &Opts) -> RunOu
     if o.sort {
         cmd.arg("--sort");
     }
-    let opath = inv_dir.join("out.dlt");
     if o.ofile {
-        cmd.arg("-o").arg(&opath);
+        cmd.arg("-o").arg(opath);
     }
-    let so = inv_dir.join("stdout.txt");
-    let se = inv_dir.join("stderr.txt");
+    let so = inv_dir.join(format!("stdout{}.txt", tag));
+    let se = inv_dir.join(format!("stderr{}.txt", tag));
     let mut child = cmd
         .env("RUST_BACKTRACE", "0")
         .stdin(Stdio::null())
@@ -406,31 +491,79 @@ fn run_adlt(scn_dir: &Path, inv_dir: &Path, args: &[ArgSpec], o: &Opts) -> RunOu
         .spawn()
         .expect("spawn adlt");
     let t0 = Instant::now();
-    let mut r = RunOut::default();
+    let (mut ok, mut timed_out) = (false, false);
     loop {
         match child.try_wait().unwrap() {
             Some(st) => {
-                r.ok = st.success();
+                ok = st.success();
                 break;
             }
             None => {
                 if t0.elapsed() > Duration::from_secs(120) {
                     let _ = child.kill();
                     let _ = child.wait();
-                    r.timed_out = true;
+                    timed_out = true;
                     break;
                 }
                 std::thread::sleep(Duration::from_millis(3));
             }
         }
     }
-    r.lines = String::from_utf8_lossy(&std::fs::read(&so).unwrap_or_default()).lines().map(|s| s.to_string()).collect();
-    r.stderr = String::from_utf8_lossy(&std::fs::read(&se).unwrap_or_default()).to_string();
+    let lines = String::from_utf8_lossy(&std::fs::read(&so).unwrap_or_default()).lines().map(|s| s.to_string()).collect();
+    let stderr = String::from_utf8_lossy(&std::fs::read(&se).unwrap_or_default()).to_string();
+    (ok, timed_out, lines, stderr)
+}
+
+/// puts the -o path into its prior state; false if a preparing run failed or timed out
+fn prepare_out_path(scn_dir: &Path, inv_dir: &Path, args: &[ArgSpec], opath: &Path, pre: &PreMat, depth: usize) -> bool {
+    match pre {
+        PreMat::Absent => true,
+        PreMat::Bytes(b) => {
+            std::fs::write(opath, b).unwrap();
+            true
+        }
+        PreMat::Prev(o, inner) => {
+            if !prepare_out_path(scn_dir, inv_dir, args, opath, inner, depth + 1) {
+                return false;
+            }
+            let (_ok, timed_out, _, stderr) = exec_adlt(scn_dir, inv_dir, args, o, opath, &format!("_pre{}", depth));
+            // (a run on files none of which can be opened fails and writes nothing: the path keeps its state)
+            !timed_out && !stderr.contains("panicked")
+        }
+    }
+}
+
+fn reread(data: &[u8]) -> Vec<DltMessage> {
+    let mut cur = std::io::Cursor::new(data);
+    DltMessageIterator::new(0, &mut cur).collect()
+}
+
+fn run_adlt(scn_dir: &Path, inv_dir: &Path, args: &[ArgSpec], o: &Opts, pre: &PreMat) -> RunOut {
+    std::fs::create_dir_all(inv_dir).unwrap();
+    let opath = inv_dir.join("out.dlt");
+    let mut r = RunOut::default();
+    if o.ofile {
+        if !prepare_out_path(scn_dir, inv_dir, args, &opath, pre, 0) {
+            r.timed_out = true;
+            r.stderr = "preparing run failed".into();
+            let _ = std::fs::remove_dir_all(inv_dir);
+            return r;
+        }
+        if opath.exists() {
+            let data = std::fs::read(&opath).unwrap();
+            r.prior_len = Some(data.len());
+            r.prior = Some(reread(&data));
+        }
+    }
+    let (ok, timed_out, lines, stderr) = exec_adlt(scn_dir, inv_dir, args, o, &opath, "");
+    r.ok = ok;
+    r.timed_out = timed_out;
+    r.lines = lines;
+    r.stderr = stderr;
     if opath.exists() {
         let data = std::fs::read(&opath).unwrap();
-        let mut cur = std::io::Cursor::new(&data[..]);
-        let it = DltMessageIterator::new(0, &mut cur);
-        r.ofile = Some(it.collect());
+        r.ofile = Some(reread(&data));
+        r.obytes = Some(data);
     }
     let _ = std::fs::remove_dir_all(inv_dir);
     r
@@ -441,6 +574,7 @@ struct Parsed {
     screen: Vec<(u32, u32)>,          // (index, uid)
     listing: Option<Vec<(u32, u8, u32)>>, // (id, ecu, nr)
     file: Option<Vec<u32>>,
+    prior: Option<Vec<u32>>, // uids the -o path re-read to before the run (u32::MAX: not a message of the scenario)
     problems: Vec<String>,
 }
 fn same_msg(a: &DltMessage, b: &DltMessage) -> bool {
@@ -457,7 +591,7 @@ fn parse_out(scn: &Scn, r: &RunOut, style: u8) -> Parsed {
     for (uid, m) in scn.msgs.iter().enumerate() {
         key.insert((m.ecu, if m.has_ts { m.ts } else { 0 }, m.mcnt), uid as u32);
     }
-    let mut p = Parsed { screen: vec![], listing: None, file: None, problems: vec![] };
+    let mut p = Parsed { screen: vec![], listing: None, file: None, prior: None, problems: vec![] };
     if style != 0 {
         for l in &r.lines {
             let t: Vec<&str> = l.split_whitespace().collect();
@@ -528,6 +662,20 @@ fn parse_out(scn: &Scn, r: &RunOut, style: u8) -> Parsed {
         }
         p.file = Some(uids);
     }
+    if let Some(ms) = &r.prior {
+        p.prior = Some(
+            ms.iter()
+                .map(|m| {
+                    let uid = if m.payload.len() >= 4 { u32::from_le_bytes([m.payload[0], m.payload[1], m.payload[2], m.payload[3]]) } else { u32::MAX };
+                    if (uid as usize) < scn.msgs.len() && same_msg(m, &scn.msgs[uid as usize].build(uid)) {
+                        uid
+                    } else {
+                        u32::MAX
+                    }
+                })
+                .collect(),
+        );
+    }
     p
 }
 
@@ -549,12 +697,13 @@ struct World {
 }
 impl World {
     fn run_jobs(&mut self, jobs: Vec<Job>, par: usize) {
-        let mut todo: Vec<(String, Job)> = vec![];
+        let mut todo: Vec<(String, Job, PreMat)> = vec![];
         let mut seen = BTreeSet::new();
         for j in jobs {
             let k = job_key(j.scn, &j.args, &j.opts);
             if !self.results.contains_key(&k) && seen.insert(k.clone()) {
-                todo.push((k, j));
+                let pm = materialize(&self.scns[j.scn], &j.opts);
+                todo.push((k, j, pm));
             }
         }
         let base = self.invocations;
@@ -575,8 +724,8 @@ impl World {
                 if i >= todo.len() {
                     break;
                 }
-                let (k, j) = &todo[i];
-                let r = run_adlt(&root.join(format!("s{}", j.scn)), &root.join(format!("i{}", base as usize + i)), &j.args, &j.opts);
+                let (k, j, pm) = &todo[i];
+                let r = run_adlt(&root.join(format!("s{}", j.scn)), &root.join(format!("i{}", base as usize + i)), &j.args, &j.opts, pm);
                 out.lock().unwrap().push((k.clone(), r));
             }));
         }
@@ -689,8 +838,8 @@ fn record(sink: &mut Sink, w: &World, scn_no: usize, args: &[ArgSpec], o: &Opts,
         }
         if !any_ok {
             // no file can be opened: an error, nothing emitted
-            if r.ok || !p.screen.is_empty() || p.file.as_ref().map_or(false, |f| !f.is_empty()) {
-                return fail("no_input", "no input file can be opened but the run succeeded or emitted messages".into());
+            if r.ok || !p.screen.is_empty() || p.file != p.prior || r.obytes.as_ref().map(|b| b.len()) != r.prior_len {
+                return fail("no_input", "no input file can be opened but the run succeeded, emitted messages or touched the -o path".into());
             }
             return Verdict::Ok;
         }
@@ -797,7 +946,15 @@ fn record(sink: &mut Sink, w: &World, scn_no: usize, args: &[ArgSpec], o: &Opts,
                     w.sort_by_key(|u| pos.get(u).cloned().unwrap_or(usize::MAX));
                 }
                 if g != w {
-                    return fail("file_selected_exactly", format!("expected {:?} got {:?}", w, got));
+                    return fail("file_selected_exactly", format!("expected {:?} got {:?} (the -o path held {:?} before the run)", w, got, p.prior));
+                }
+                // the final content of the path is exactly the frames of those messages, byte for byte, nothing else
+                let mut bytes = vec![];
+                for u in got {
+                    scn.msgs[*u as usize].build(*u).to_write(&mut bytes).unwrap();
+                }
+                if r.obytes.as_ref() != Some(&bytes) {
+                    return fail("file_bytes_exact", format!("the -o file has {} bytes, the frames of the selected messages {} (prior content: {:?} bytes)", r.obytes.as_ref().map_or(0, |b| b.len()), bytes.len(), r.prior_len));
                 }
             }
             (None, true) => return fail("file_written", "-o given but no file written".into()),
@@ -841,14 +998,15 @@ fn record(sink: &mut Sink, w: &World, scn_no: usize, args: &[ArgSpec], o: &Opts,
     let coq_args: Vec<String> = args.iter().map(|a| if scn.files[a.0].missing { "None".to_string() } else { format!("(Some {})", a.0) }).collect();
     let coq_filters: Vec<String> = filters.iter().map(|f| format!("({}, {})", f.kind, cbool(f.enabled))).collect();
     let coq_opts = format!(
-        "({}, {}, {}, {}, {}, {}, {})",
+        "({}, {}, {}, {}, {}, {}, {}, {})",
         o.b.unwrap_or(0),
         o.e.unwrap_or(u32::MAX),
         cnums(&o.lcs),
         clist(&coq_filters),
         cbool(o.sort),
         o.style,
-        cbool(o.ofile)
+        cbool(o.ofile),
+        copt(p.prior.as_ref().map(|v| cnums(v)))
     );
     let input_coq = format!("({}, {}, {})", clist(&coq_files), clist(&coq_args), coq_opts);
 
@@ -897,6 +1055,18 @@ fn record(sink: &mut Sink, w: &World, scn_no: usize, args: &[ArgSpec], o: &Opts,
     }
     if o.ofile {
         tags.push("opt_o".into());
+        tags.push(o.pre.tag().into());
+        if let Pre::Prev(p1) = &o.pre {
+            if let Pre::Prev(_) = &p1.pre {
+                tags.push("out_path_written_three_times".into());
+            }
+        }
+        match (r.prior_len, r.obytes.as_ref().map(|b| b.len())) {
+            (Some(a), Some(b)) if a > b => tags.push("out_path_prior_longer".into()),
+            (Some(a), Some(b)) if a < b => tags.push("out_path_prior_shorter".into()),
+            (Some(_), Some(_)) => tags.push("out_path_prior_same_length".into()),
+            _ => {}
+        }
     }
     if !dft {
         tags.push("first_times_tie".into());
@@ -1147,7 +1317,7 @@ fn gen_flt(rng: &mut Rng, necu: u64, kind: u8) -> Flt {
     f
 }
 
-fn gen_opts(rng: &mut Rng, scn: &Scn, n: usize, nlc: u32, lcs_ok: bool) -> Opts {
+fn gen_opts(rng: &mut Rng, scn: &Scn, n: usize, nlc: u32, lcs_ok: bool, depth: u32) -> Opts {
     let necu = scn.msgs.iter().map(|m| m.ecu).max().unwrap_or(1) as u64;
     let mut o = Opts::none(0);
     let n = n as u64;
@@ -1255,8 +1425,52 @@ fn gen_opts(rng: &mut Rng, scn: &Scn, n: usize, nlc: u32, lcs_ok: bool) -> Opts 
     }
     o.sort = rng.chance(1, 4);
     o.style = rng.below(4) as u8;
-    o.ofile = rng.chance(1, 2) || o.style == 0;
+    o.ofile = rng.chance(1, 2) || o.style == 0 || depth > 0;
+    if o.ofile {
+        o.pre = gen_pre(rng, scn, n as usize, nlc, lcs_ok, depth);
+    }
     o
+}
+
+/// the state of the -o path before the run: absent, empty, junk of various lengths, a valid DLT file of other
+/// messages, or the output of earlier runs (wider / narrower / differently sorted selections of the same input)
+fn gen_pre(rng: &mut Rng, scn: &Scn, n: usize, nlc: u32, lcs_ok: bool, depth: u32) -> Pre {
+    match rng.below(10) {
+        0 | 1 | 2 => Pre::Absent,
+        3 => Pre::Empty,
+        4 => Pre::Junk(*rng.pick(&[1u32, 3, 16, 40, 200, 1_000, 5_000, 70_000]) + rng.below(7) as u32, rng.next()),
+        5 => {
+            let total = scn.msgs.len() as u64;
+            if total == 0 {
+                return Pre::Empty;
+            }
+            let k = match rng.below(3) {
+                0 => rng.range(1, 3),
+                1 => total,
+                _ => 2 * total + rng.below(5),
+            };
+            Pre::Dlt((0..k).map(|_| rng.below(total) as u32).collect(), rng.chance(1, 3))
+        }
+        _ => {
+            if depth >= 2 {
+                return Pre::Absent;
+            }
+            let mut p = if rng.chance(1, 2) {
+                // the whole input (the widest selection), sometimes time sorted
+                let mut p = Opts::none(*rng.pick(&[0u8, 3]));
+                p.sort = rng.chance(1, 4);
+                p.ofile = true;
+                if depth < 1 && rng.chance(1, 4) {
+                    p.pre = gen_pre(rng, scn, n, nlc, lcs_ok, depth + 1);
+                }
+                p
+            } else {
+                gen_opts(rng, scn, n, nlc, lcs_ok, depth + 1)
+            };
+            p.ofile = true;
+            Pre::Prev(Box::new(p))
+        }
+    }
 }
 
 fn shuffle<T>(rng: &mut Rng, v: &mut Vec<T>) {
@@ -1471,6 +1685,58 @@ fn corpus_filters() -> (Scn, Vec<Opts>) {
     (scn, opts)
 }
 
+/// the environment of the output side: one file of 10 messages; the -o path absent / empty / junk (shorter and longer
+/// than what is written) / another DLT file / written before by a wider, a narrower, a sorted selection, two and three
+/// times in a row
+fn corpus_out_path() -> (Scn, Vec<Opts>) {
+    let msgs: Vec<M> = (0..10u32)
+        .map(|k| M { ecu: 1, rt: RHO + k as u64 * 50_000, ts: k * 500, mcnt: k as u8, ext: true, apid: (k % 3) as u8 + 1, ctid: 1, boot: 0, fill: if k == 7 { 300 } else { 0 }, creq: false, has_ts: true })
+        .collect();
+    let scn = Scn { files: vec![FileSpec { garbage: vec![vec![]; 11], msgs: (0..10).collect(), missing: false, pad: 0 }, FileSpec { msgs: vec![], garbage: vec![vec![]], missing: true, pad: 0 }], msgs };
+    let win = |b: Option<u32>, e: Option<u32>, style: u8, pre: Pre| {
+        let mut o = Opts::none(style);
+        o.b = b;
+        o.e = e;
+        o.ofile = true;
+        o.pre = pre;
+        o
+    };
+    let all = |sort: bool| {
+        let mut o = Opts::none(0);
+        o.ofile = true;
+        o.sort = sort;
+        o
+    };
+    let apid = |a: u8, pre: Pre| {
+        let mut o = Opts::none(3);
+        o.eac = vec![Flt { kind: 0, enabled: true, ecu: vec![], apid: Some(a), ctid: None }];
+        o.ofile = true;
+        o.pre = pre;
+        o
+    };
+    let opts = vec![
+        win(Some(2), Some(5), 3, Pre::Absent),
+        win(Some(2), Some(5), 3, Pre::Empty),
+        win(Some(2), Some(5), 0, Pre::Prev(Box::new(all(false)))),
+        win(Some(3), Some(3), 1, Pre::Prev(Box::new(all(true)))),
+        apid(2, Pre::Prev(Box::new(win(Some(1), Some(8), 0, Pre::Absent)))),
+        win(None, None, 0, Pre::Prev(Box::new(win(Some(4), Some(5), 3, Pre::Absent)))),
+        win(Some(6), Some(6), 2, Pre::Prev(Box::new(win(Some(2), Some(7), 0, Pre::Prev(Box::new(all(false))))))),
+        win(Some(0), Some(1), 3, Pre::Junk(5_000, 7)),
+        win(Some(0), Some(8), 3, Pre::Junk(33, 8)),
+        win(Some(9), Some(9), 0, Pre::Junk(5, 9)),
+        apid(1, Pre::Dlt(vec![9, 8, 7, 6, 5, 4, 3, 2, 1, 0, 0, 1, 2], true)),
+        apid(3, Pre::Dlt(vec![5], false)),
+        win(Some(20), None, 3, Pre::Prev(Box::new(all(false)))), // selects nothing: the file must end up empty
+        {
+            let mut o = win(Some(1), Some(6), 3, Pre::Prev(Box::new(apid(1, Pre::Absent))));
+            o.sort = true;
+            o
+        },
+    ];
+    (scn, opts)
+}
+
 fn perms4() -> Vec<Vec<usize>> {
     let mut out = vec![];
     for a in 0..4 {
@@ -1544,6 +1810,20 @@ fn main() {
             }
             plans.push(Plan { scn: no, args: l.iter().map(|k| (*k, false)).collect(), opts: o, tags: vec!["corpus_odd_files"] });
         }
+    }
+    {
+        let (scn, opts) = corpus_out_path();
+        let no = w.scns.len();
+        scn.write_files(&w.root.join(format!("s{}", no)));
+        w.scns.push(scn);
+        for o in opts {
+            plans.push(Plan { scn: no, args: vec![(0, false)], opts: o, tags: vec!["corpus_out_path"] });
+        }
+        // no file can be opened: the run fails and must leave the path alone
+        let mut o = Opts::none(3);
+        o.ofile = true;
+        o.pre = Pre::Junk(100, 3);
+        plans.push(Plan { scn: no, args: vec![(1, false)], opts: o, tags: vec!["corpus_out_path"] });
     }
     {
         let (scn, opts) = corpus_filters();
@@ -1620,7 +1900,7 @@ fn main() {
             }
             let k = if li == 0 { 4 } else { 1 };
             for _ in 0..k {
-                let o = gen_opts(&mut rng, &w.scns[no], pb.screen.len(), t.rows.len() as u32, t.lc_of.is_some());
+                let o = gen_opts(&mut rng, &w.scns[no], pb.screen.len(), t.rows.len() as u32, t.lc_of.is_some(), 0);
                 plans.push(Plan { scn: no, args: l.clone(), opts: o, tags: vec!["options"] });
             }
         }
